@@ -18,44 +18,53 @@
 (* The final step lets every outstanding request report (in-flight count   *)
 (* back to zero).                                                          *)
 (*                                                                         *)
-(* CapOK keeps the capacity away from arithmetic borderlines: a step that  *)
-(* consults the capacity is generated only if rounding the average latency *)
-(* to whole milliseconds (as the code does) cannot change the capacity and *)
-(* the float product cannot sit exactly on an integer.                     *)
+(* Whole-millisecond statistics.  The specification's capacity uses the    *)
+(* exact latencies.  An implementation that keeps whole-millisecond        *)
+(* statistics - each sample rounded UP to a millisecond, the bucket        *)
+(* average rounded to the nearest millisecond - may legitimately report a  *)
+(* larger capacity; the nearest-rounding of the average can however land   *)
+(* below the true average (samples 1, 1, 2 ms: 1.33 -> 1).  Such genuine   *)
+(* borderlines are not generated: msBk mirrors the rounded-up samples and  *)
+(* StatsOK admits a step that consults the capacity only if, for every     *)
+(* visible bucket, the capacity from the whole-millisecond average is not  *)
+(* below the capacity from the exact average, and the float product        *)
+(* cannot sit exactly on an integer.                                       *)
 (***************************************************************************)
 EXTENDS Shedder, Json
 
 CONSTANTS MaxOps, Script
 
-VARIABLES hist, nops, fin
+VARIABLES hist, nops, fin,
+          msBk     \* [0..Size-1 -> Nat]: per bucket, the sum of the samples rounded up to whole ms
 
-gvars == <<vars, hist, nops, fin>>
+gvars == <<vars, hist, nops, fin, msBk>>
 
-\* the capacity computed from the exact average latency of a bucket equals the one computed from
-\* the average rounded to whole milliseconds (|exact - rounded| <= 1/2), for every visible bucket
-ExactCapOK(pb, rb) ==
+RoundDiv(x, c) == (2 * x + c) \div (2 * c)                   \* nearest integer, halves up
+CeilMs(ticks) == (ticks * TickUs + 999) \div 1000            \* a latency rounded up to whole ms
+
+StatsOK(pb, rb, mb) ==
   LET m == MaxPass(pb) * W IN
-  /\ \A j \in {a \in Visible : rb[a].count > 0} :
-        LET a == RoundDiv(rb[j].sum, rb[j].count) IN
-          \/ rb[j].sum = a * rb[j].count
-          \/ (m * (2 * a - 1)) \div 2000 = (m * (2 * a + 1)) \div 2000
-  /\ ((m * MinRt(rb)) % 1000 = 0) => (MinRt(rb) % 125 = 0)
-CapOK == ExactCapOK(passBk, rtBk)
+  \A j \in {a \in Visible : rb[a].count > 0} :
+     LET avgMs == RoundDiv(mb[j], rb[j].count) IN
+       /\ (m * Min2(avgMs, 1000)) \div 1000 >= Min2(BucketCap(m, rb[j]), m)
+       /\ ((m * avgMs) % 1000 = 0) => (avgMs % 125 = 0)
 
-GInit == Init /\ hist = <<>> /\ nops = 0 /\ fin = FALSE
+GInit == Init /\ hist = <<>> /\ nops = 0 /\ fin = FALSE /\ msBk = [j \in Ages |-> 0]
 
 Offered(i) == IF i <= Len(Script) THEN Script[i] ELSE Script[Len(Script)]
 
-\* n completions of the oldest request at instant t: resulting windows
-PassN(pb, rb, st, t, n) ==
+\* n completions of the oldest requests at instant t: resulting windows
+SumTo(f(_), n) == LET S[i \in 0..n] == IF i = 0 THEN 0 ELSE S[i - 1] + f(i) IN S[n]
+PassN(pb, rb, mb, st, t, n) ==
   [p |-> [pb EXCEPT ![0] = @ + n],
-   r |-> [rb EXCEPT ![0] = [sum |-> @.sum + (n * t - (LET S[i \in 0..n] == IF i = 0 THEN 0 ELSE S[i - 1] + st[i] IN S[n])) * TickMs,
-                             count |-> @.count + n]]]
+   r |-> [rb EXCEPT ![0] = [sum |-> @.sum + SumTo(LAMBDA i : t - st[i], n), count |-> @.count + n]],
+   m |-> [mb EXCEPT ![0] = @ + SumTo(LAMBDA i : CeilMs(t - st[i]), n)]]
 
 Macro(d, o) ==
   LET s  == Cur(now + d) - Cur(now)
       pb == ShiftP(passBk, s)
       rb == ShiftR(rtBk, s)
+      mb == ShiftP(msBk, s)
       t1 == now + d
       cap == Cap(pb, rb)
   IN
@@ -66,10 +75,10 @@ Macro(d, o) ==
   /\ UNCHANGED fin
   /\ CASE o.op = "allow" ->
             LET may == /\ Hot(o.over, over, t1) /\ Len(starts) > cap /\ maxSeen > cap IN
-            /\ ExactCapOK(pb, rb)
+            /\ StatsOK(pb, rb, mb)
             /\ o.drop => may
             /\ ~o.drop => Len(starts) < MaxFly
-            /\ passBk' = pb /\ rtBk' = rb
+            /\ passBk' = pb /\ rtBk' = rb /\ msBk' = mb
             /\ over' = IF o.over THEN [seen |-> TRUE, at |-> t1] ELSE over
             /\ starts' = IF o.drop THEN starts ELSE Append(starts, t1)
             /\ UNCHANGED maxSeen
@@ -78,7 +87,7 @@ Macro(d, o) ==
        [] o.op = "burst" ->
             /\ ~Recently(over, t1)
             /\ Len(starts) + o.n <= MaxFly
-            /\ passBk' = pb /\ rtBk' = rb
+            /\ passBk' = pb /\ rtBk' = rb /\ msBk' = mb
             /\ starts' = starts \o [i \in 1..o.n |-> t1]
             /\ UNCHANGED <<over, maxSeen>>
             /\ out' = [op |-> "burst", d |-> d, n |-> o.n, flying |-> Len(starts'), maxSeen |-> maxSeen]
@@ -90,18 +99,20 @@ Macro(d, o) ==
             /\ maxSeen' = Max2(maxSeen, Len(starts) - 1)
             /\ passBk' = IF o.op = "pass" THEN [pb EXCEPT ![0] = @ + 1] ELSE pb
             /\ rtBk' = IF o.op = "pass"
-                         THEN [rb EXCEPT ![0] = [sum |-> @.sum + (t1 - starts[i]) * TickMs, count |-> @.count + 1]]
+                         THEN [rb EXCEPT ![0] = [sum |-> @.sum + (t1 - starts[i]), count |-> @.count + 1]]
                          ELSE rb
+            /\ msBk' = IF o.op = "pass" THEN [mb EXCEPT ![0] = @ + CeilMs(t1 - starts[i])] ELSE mb
             /\ UNCHANGED over
-            /\ out' = [op |-> o.op, d |-> d, i |-> i, rt |-> (t1 - starts[i]) * TickMs,
+            /\ out' = [op |-> o.op, d |-> d, i |-> i, rt |-> t1 - starts[i],
                        flying |-> Len(starts) - 1, maxSeen |-> maxSeen']
        [] o.op \in {"passn", "failn"} ->
             LET n == IF o.m = 0 THEN Len(starts) ELSE o.m IN
             /\ n >= 2 /\ n <= Len(starts)
             /\ starts' = SubSeq(starts, n + 1, Len(starts))
             /\ maxSeen' = Max2(maxSeen, Len(starts) - 1)
-            /\ passBk' = IF o.op = "passn" THEN PassN(pb, rb, starts, t1, n).p ELSE pb
-            /\ rtBk' = IF o.op = "passn" THEN PassN(pb, rb, starts, t1, n).r ELSE rb
+            /\ passBk' = IF o.op = "passn" THEN PassN(pb, rb, mb, starts, t1, n).p ELSE pb
+            /\ rtBk' = IF o.op = "passn" THEN PassN(pb, rb, mb, starts, t1, n).r ELSE rb
+            /\ msBk' = IF o.op = "passn" THEN PassN(pb, rb, mb, starts, t1, n).m ELSE mb
             /\ UNCHANGED over
             /\ out' = [op |-> o.op, d |-> d, n |-> n, flying |-> Len(starts) - n, maxSeen |-> maxSeen']
   /\ hist' = Append(hist, out')
@@ -125,7 +136,7 @@ Finish ==
   /\ maxSeen' = IF Len(starts) > 0 THEN Max2(maxSeen, Len(starts) - 1) ELSE maxSeen
   /\ out' = [op |-> "finish", n |-> Len(starts), flying |-> 0, maxSeen |-> maxSeen']
   /\ hist' = Append(hist, out')
-  /\ UNCHANGED <<now, passBk, rtBk, over, nops>>
+  /\ UNCHANGED <<now, passBk, rtBk, over, nops, msBk>>
 
 GNext ==
   \/ \E d \in Advances, o \in Ops :
